@@ -213,6 +213,10 @@ class Counters(Monitor):
             c = nxt[0]
             h = c["h_req"]
             want = r["dt_set"]
+            if np.isfinite(target) and sgn(h) != sgn(target - _f(c["t0"])) and sgn(target - _f(c["t0"])) != 0:
+                world.violate(P, P + ".cb_dt_used", "callback set dt=%r; the next step was attempted with h=%r, away from the target %r (t=%r)"
+                              % (_f(want), _f(h), target, _f(c["t0"])))
+                continue
             if bitwise_equal(np.abs(h), np.abs(want)):
                 world.probe("cb_dt_honoured")
                 continue
@@ -382,6 +386,7 @@ class RejectionShrinks(Monitor):
 class Accuracy(Monitor):
     """C05 (fault-free clause): global error against the closed form is bounded by K*(atol+rtol*max|y|)*steps*amplification."""
     K = 50.0
+    K_local = 100.0
 
     def __init__(self, prop="C05", oracle=None, K=None):
         self.prop = prop
@@ -416,6 +421,21 @@ class Accuracy(Monitor):
         if err > self.K * bound:
             world.violate(self.prop, self.oracle, "|y_N - exact| = %.3e > %g * %.3e (rtol %.2e atol %.2e steps %d amp %.2f, %s)"
                           % (err, self.K, bound, rtol, atol, nsteps, amp, type(integ).__name__))
+            return
+        # sharper form of the same clause: every step may contribute a local error (atol + rtol*|y_j|), which reaches the
+        # end multiplied by the exact flow's sensitivity d y(t_N)/d y(t_j) -- "the problem's own error amplification"
+        n_ = np.sqrt(float(np.asarray(y[0]).size))
+        acc = 0.0
+        y0f = np.asarray(y[0], dtype=np.float64)
+        for j in range(len(t) - 1):
+            yj_exact = world.problem.exact(t[j], t[0], y0f, k=k)
+            sens = world.problem.sensitivity(_f(t[j]), _f(t[-1]), yj_exact, k)
+            acc += sens * (atol + rtol * float(np.max(np.abs(y[j]))))
+        bound2 = n_ * acc + 64 * eps * nsteps * ymax * amp
+        world.ratio(self.oracle + "_local", err / bound2)
+        if err > self.K_local * bound2:
+            world.violate(self.prop, self.oracle + "_local", "|y_N - exact| = %.3e > %g * sum_j sens_j*(atol+rtol*|y_j|) = %g * %.3e (rtol %.2e atol %.2e steps %d, %s)"
+                          % (err, self.K_local, self.K_local, bound2, rtol, atol, nsteps, type(integ).__name__))
 
 
 # ======================================================================================== C06
